@@ -1,122 +1,200 @@
-(** C12 — which table object the probes read: model of TranspositionTable::updateTB / clear /
-    probeDTM (transpositionTable.cpp:311-364) as a state machine over
+(** C12 — which bytes the probes read: model of TranspositionTable::updateTB / clear / probeDTM
+    / ordinary hash traffic (transpositionTable.cpp) as a state machine over
 
-        tbGen ∈ { none, complete c, partial c }        (c = material class of the generator)
+      gen     : the installed generator (tbGen): none, or a generator for material class c
+      store   : what the ONE shared table region at the end of the hash table holds
+                (every TBGenerator<TTStorage> is built on the same ttStorage member):
+                garbage | complete c | partial c ph   (ph = phase in which generation stopped)
+      prot    : the region is excluded from hashing (usedSize reduced)
+      notUsed : retirement counter
 
-    "partial c" = a TBGenerator whose generate() did not prun to completion: its table region
-    holds a mixture of stale bytes, phase-1 classifications and finished layers.
+    A probe goes through [gen] and reads [store].  It is SOUND only if the store holds the
+    complete table of the generator's own class.
 
-    Two variants of the one line that differs:
-      [Current]  the code as it stands: when generate() fails, updateTB returns false and
-                 LEAVES the new generator installed in tbGen;
-      [Fixed]    the generator is dropped (tbGen.reset(); setUsedSize(tableSize)) on failure.
-    The check decides by correspondence (harness "script" mode: return values and whether a
-    generator is installed after every operation) which variant the code in /repo is. *)
+    Three variants of the failure branch of updateTB (generation aborted by its time limit or by
+    "stop"):
+      [Fixed]    the code as it stands: tbGen.reset(); setUsedSize(tableSize); notUsedCnt = 0
+                 — after an aborted (re)build NOTHING is installed;
+      [Current]  the code before commit b8efb91: the new, partly written generator stays installed;
+      [KeepOld]  the new generator is built aside and installed only on success, the failure
+                 branch touches nothing: the PREVIOUS generator stays installed although the new
+                 generation has overwritten the shared region.
+    The check decides by correspondence (harness "script" mode: return value and class of the
+    installed generator after every operation) which variant the code in /repo is. *)
 From Coq Require Import List Bool Arith.
 Import ListNotations.
 
-Inductive variant := Current | Fixed.
+Inductive variant := Current | Fixed | KeepOld.
 
 Section Model.
   Variable C : Type.                       (* material classes *)
+  Variable ceq : C -> C -> bool.
 
-  Inductive gen := GNone | GComplete (c : C) | GPartial (c : C).
+  Inductive content := SGarbage | SComplete (c : C) | SPartial (c : C) (phase : nat).
 
-  Record st := mkSt { g : gen; notUsed : nat }.
+  Inductive outcome := GenOk | GenAborted (phase : nat).     (* the abort point *)
+
+  Record st := mkSt { gen : option C; store : content; prot : bool; notUsed : nat }.
 
   Inductive op :=
-  | OUpdate (c : C) (pre_found enough gen_ok : bool)
+  | OUpdate (c : C) (pre_found enough : bool) (o : outcome)
       (* updateTB with a root position of class c (<= 4 men, no pawns).
          pre_found: answer of the initial tbGen->probeDTM(pos) (only consulted if a generator is
-         installed); enough: time limit and hash size allow a generation; gen_ok: generate()
-         runs to completion (false = aborted by its time limit or by "stop") *)
+         installed); enough: time limit and hash size allow a generation; o: how generate() ends *)
   | OUnsuitable                            (* updateTB with > 4 men or pawns *)
   | OClear                                 (* TranspositionTable::clear() *)
-  | OProbe.                                (* TranspositionTable::probeDTM from the search:
+  | OHash                                  (* ordinary hash traffic: inserts all over the used part *)
+  | OProbe (c : C).                        (* probeDTM on positions of class c from the search:
                                               tbProbe, getSearchMoves, extendPV *)
 
-  Definition installed (x : gen) : bool := match x with GNone => false | _ => true end.
-  Definition is_partial (x : gen) : bool := match x with GPartial _ => true | _ => false end.
+  Definition installed (s : st) : bool := match gen s with Some _ => true | None => false end.
 
-  (** one operation: new state, return value, and whether it READ a partial table *)
+  (** the installed generator would answer from bytes that are not its own complete table *)
+  Definition unsound (s : st) : bool :=
+    match gen s with
+    | None => false
+    | Some cg => match store s with SComplete c => negb (ceq c cg) | _ => true end
+    end.
+
+  Definition answers (s : st) (c : C) : bool :=
+    match gen s with Some cg => ceq cg c | None => false end.
+
+  (** one operation: new state, return value, and whether it READ through an unsound generator *)
   Definition pstep (v : variant) (s : st) (o : op) : st * bool * bool :=
     match o with
     | OUnsuitable =>
-        if installed (g s) then
-          if 3 <? notUsed s then (mkSt GNone 0, false, false)
-          else (mkSt (g s) (S (notUsed s)), true, false)
+        if installed s then
+          if 3 <? notUsed s then (mkSt None (store s) false 0, false, false)
+          else (mkSt (gen s) (store s) (prot s) (S (notUsed s)), true, false)
         else (s, false, false)
-    | OUpdate c pre enough ok =>
-        let rp := is_partial (g s) in          (* `tbGen && tbGen->probeDTM(pos, 0, score)` *)
-        if installed (g s) && pre then (mkSt (g s) 0, true, rp)
-        else if negb enough then (s, false, rp)
-        else if ok then (mkSt (GComplete c) 0, true, rp)
-        else match v with
-             | Current => (mkSt (GPartial c) (notUsed s), false, rp)
-             | Fixed => (mkSt GNone 0, false, rp)
+    | OUpdate c pre enough out =>
+        let bad := unsound s in                (* `tbGen && tbGen->probeDTM(pos, 0, score)` *)
+        if installed s && pre then (mkSt (gen s) (store s) (prot s) 0, true, bad)
+        else if negb enough then (s, false, bad)
+        else match out with
+             | GenOk => (mkSt (Some c) (SComplete c) true 0, true, bad)
+             | GenAborted ph =>
+                 match v with
+                 | Fixed => (mkSt None (SPartial c ph) false 0, false, bad)
+                 | Current => (mkSt (Some c) (SPartial c ph) (prot s) (notUsed s), false, bad)
+                 | KeepOld => (mkSt (gen s) (SPartial c ph) (prot s) (notUsed s), false, bad)
+                 end
              end
-    | OClear => (mkSt GNone 0, false, false)
-    | OProbe => (s, installed (g s), is_partial (g s))
+    | OClear => (mkSt None SGarbage false 0, false, false)
+    | OHash => (mkSt (gen s) (if prot s then store s else SGarbage) (prot s) (notUsed s), false, false)
+    | OProbe c => (s, answers s c, unsound s)
     end.
 
-  Definition pinit : st := mkSt GNone 0.
+  Definition pinit : st := mkSt None SGarbage false 0.
 
-  (** observable trace: per operation (return value, generator installed afterwards, partial read) *)
-  Fixpoint prun (v : variant) (s : st) (ops : list op) : list (bool * bool * bool) :=
+  (** observable trace: per operation (return value, installed generator afterwards, unsound read) *)
+  Fixpoint prun (v : variant) (s : st) (ops : list op) : list (bool * option C * bool) :=
     match ops with
     | [] => []
-    | o :: r => let '(s', ret, rp) := pstep v s o in (ret, installed (g s'), rp) :: prun v s' r
+    | o :: r => let '(s', ret, bad) := pstep v s o in (ret, gen s', bad) :: prun v s' r
     end.
 
-  Definition reads_partial (v : variant) (ops : list op) : bool :=
+  Definition reads_unsound (v : variant) (ops : list op) : bool :=
     existsb (fun t => snd t) (prun v pinit ops).
 
-  (** the property: no probe ever reads a partial table, whatever the history *)
-  Definition abort_state_safe (v : variant) : Prop := forall ops, reads_partial v ops = false.
+  (** the property: whatever the history (several classes, aborts at any point, hash traffic),
+      a probe only ever answers from the complete table of the generator's own class *)
+  Definition abort_state_safe (v : variant) : Prop := forall ops, reads_unsound v ops = false.
 
-  Lemma fixed_never_partial : forall ops s, is_partial (g s) = false ->
-    existsb (fun t : bool * bool * bool => snd t) (prun Fixed s ops) = false.
+  Hypothesis ceq_refl : forall c, ceq c c = true.
+
+  (** invariant of the code as it stands: an installed generator owns a complete, protected table *)
+  Definition inv (s : st) : Prop :=
+    match gen s with
+    | None => True
+    | Some cg => store s = SComplete cg /\ prot s = true
+    end.
+
+  Lemma inv_sound : forall s, inv s -> unsound s = false.
+  Proof.
+    intros s H. unfold inv, unsound in *. destruct (gen s) as [cg|]; [|reflexivity].
+    destruct H as [H _]. rewrite H. rewrite ceq_refl. reflexivity.
+  Qed.
+
+  Lemma fixed_step : forall s o, inv s ->
+    let '(s', _, bad) := pstep Fixed s o in inv s' /\ bad = false.
+  Proof.
+    intros s o H. pose proof (inv_sound s H) as Hs.
+    destruct o as [c pre enough out| | | |c]; simpl.
+    - destruct (installed s && pre).
+      + split; [|exact Hs]. unfold inv in *. simpl. destruct (gen s); [exact H|exact I].
+      + destruct (negb enough); [split; [exact H|exact Hs]|].
+        destruct out; (split; [|exact Hs]); unfold inv; simpl; auto.
+    - destruct (installed s); [|split; [exact H|reflexivity]].
+      destruct (3 <? notUsed s); (split; [|reflexivity]); unfold inv in *; simpl; auto.
+    - split; [exact I|reflexivity].
+    - split; [|reflexivity]. unfold inv in *. simpl. destruct (gen s) as [cg|]; [|exact I].
+      destruct H as [H1 H2]. rewrite H2. simpl. split; [exact H1|reflexivity].
+    - split; [exact H|exact Hs].
+  Qed.
+
+  Lemma fixed_never_unsound : forall ops s, inv s ->
+    existsb (fun t : bool * option C * bool => snd t) (prun Fixed s ops) = false.
   Proof.
     induction ops as [|o r IH]; intros s Hs; [reflexivity|].
-    simpl. destruct (pstep Fixed s o) as [[s' ret] rp] eqn:E. simpl.
-    assert (H : rp = false /\ is_partial (g s') = false).
-    { destruct o as [c pre enough ok| | |]; simpl in E.
-      - destruct (installed (g s) && pre); [inversion E; subst; simpl; auto|].
-        destruct (negb enough); [inversion E; subst; auto|].
-        destruct ok; inversion E; subst; simpl; auto.
-      - destruct (installed (g s)); [|inversion E; subst; auto].
-        destruct (3 <? notUsed s); inversion E; subst; simpl; auto.
-      - inversion E; subst; simpl; auto.
-      - inversion E; subst; auto. }
-    destruct H as [H1 H2]. rewrite H1. simpl. apply IH. exact H2.
+    simpl. pose proof (fixed_step s o Hs) as H.
+    destruct (pstep Fixed s o) as [[s' ret] bad]. destruct H as [H1 H2].
+    simpl. rewrite H2. simpl. apply IH. exact H1.
   Qed.
 
   Theorem abort_state_fixed : abort_state_safe Fixed.
-  Proof. intros ops. unfold reads_partial. apply fixed_never_partial. reflexivity. Qed.
+  Proof. intros ops. unfold reads_unsound. apply fixed_never_unsound. exact I. Qed.
+
+  (** in particular: after an aborted (re)build nothing stays installed, whatever was installed before *)
+  Lemma fixed_abort_installs_nothing : forall s c pre ph,
+    (installed s && pre) = false ->
+    gen (fst (fst (pstep Fixed s (OUpdate c pre true (GenAborted ph))))) = None.
+  Proof. intros s c pre ph H. simpl. rewrite H. reflexivity. Qed.
 End Model.
 
-Arguments OUpdate {C} c pre_found enough gen_ok.
+Arguments OUpdate {C} c pre_found enough o.
 Arguments OUnsuitable {C}.
 Arguments OClear {C}.
-Arguments OProbe {C}.
+Arguments OHash {C}.
+Arguments OProbe {C} c.
 
-(** the history that breaks the code as it stands: a generation is aborted, then the search
+(** the history that broke the code before b8efb91: a generation is aborted, then the search
     probes (getSearchMoves is called right after updateTB returns) *)
-Definition abort_witness : list (op nat) := [OUpdate 0 false true false; OProbe].
+Definition abort_witness : list (op nat) := [OUpdate 0 false true (GenAborted 1); OProbe 0].
 
-Theorem abort_state_current_refuted : exists ops : list (op nat), reads_partial nat Current ops = true.
+Theorem abort_state_current_refuted :
+  exists ops : list (op nat), reads_unsound nat Nat.eqb Current ops = true.
 Proof. exists abort_witness. vm_compute. reflexivity. Qed.
 
-(** ... and the next updateTB on the same material reads it too and, if the probe happens to
-    hit, reports "tables available" without generating anything *)
-Example abort_then_update :
-  prun nat Current (pinit nat) [OUpdate 0 false true false; OUpdate 0 true true true] =
-  [(false, true, false); (true, true, true)].
+(** the history that breaks the "install only on success, leave everything else alone" shape:
+    a complete table for class 0 is installed, a rebuild for class 1 is aborted, class 0 is probed *)
+Definition rebuild_witness : list (op nat) :=
+  [OUpdate 0 false true GenOk; OUpdate 1 false true (GenAborted 2); OProbe 0].
+
+Theorem abort_state_keepold_refuted :
+  exists ops : list (op nat), reads_unsound nat Nat.eqb KeepOld ops = true.
+Proof. exists rebuild_witness. vm_compute. reflexivity. Qed.
+
+(** the same history is harmless in the code as it stands (non-vacuity of the fixed model:
+    nothing installed after the abort, the next call rebuilds class 0 completely) *)
+Example rebuild_fixed :
+  prun nat Nat.eqb Fixed (pinit nat)
+       [OUpdate 0 false true GenOk; OUpdate 1 false true (GenAborted 2); OProbe 0; OHash;
+        OUpdate 0 false true GenOk; OProbe 0; OProbe 1] =
+  [(true, Some 0, false); (false, None, false); (false, None, false); (false, None, false);
+   (true, Some 0, false); (true, Some 0, false); (false, Some 0, false)].
 Proof. vm_compute. reflexivity. Qed.
 
-(** non-vacuity of the fixed model: the same history installs nothing and the second call
-    generates a complete table *)
-Example abort_then_update_fixed :
-  prun nat Fixed (pinit nat) [OUpdate 0 false true false; OProbe; OUpdate 0 true true true; OProbe] =
-  [(false, false, false); (false, false, false); (true, true, false); (true, true, false)].
+Example rebuild_keepold :
+  prun nat Nat.eqb KeepOld (pinit nat)
+       [OUpdate 0 false true GenOk; OUpdate 1 false true (GenAborted 2); OProbe 0;
+        OUpdate 0 true true GenOk] =
+  [(true, Some 0, false); (false, Some 0, false); (true, Some 0, true); (true, Some 0, true)].
+Proof. vm_compute. reflexivity. Qed.
+
+(** with one class only, KeepOld and Fixed are indistinguishable by (return value, installed
+    generator): this is why single-class abort scripts cannot tell them apart *)
+Example single_class_blind :
+  prun nat Nat.eqb KeepOld (pinit nat) [OUpdate 0 false true (GenAborted 1); OProbe 0] =
+  prun nat Nat.eqb Fixed (pinit nat) [OUpdate 0 false true (GenAborted 1); OProbe 0].
 Proof. vm_compute. reflexivity. Qed.
